@@ -280,7 +280,8 @@ Next ==
          \* part of the observation that does not involve placeholders
          \* (the same once the specification state has been lost: orphans cannot be excluded then)
          changed == IF ok /\ ~st.orph THEN o.dig # PrevDig(tid, l) ELSE o.digr # PrevDigR(tid, l)
-         stutter == (IF e.res # "ok" /\ e.op.k # "load" /\ changed THEN {"stutter"} ELSE {})
+         \* (a conversion that fails half way has named some edges of the source: by design, C06)
+         stutter == (IF e.res # "ok" /\ e.op.k \notin {"load", "tog2"} /\ changed THEN {"stutter"} ELSE {})
                     \* C10: a read-only call leaves the whole observation unchanged and
                     \* answers the same when repeated (and as it did earlier in this state)
                     \cup (IF e.op.k = "query" /\ o.dig # PrevDig(tid, l) THEN {"query-changed"} ELSE {})
